@@ -14,6 +14,7 @@ BOUND = ("SpatiallyAdaptiveSingleDimensions2 + GlobalTrapezoidalGrid, d in {2,3}
          "one-sided and deepest-first histories); every (version x rebalancing x boundary) combination at least once, the rest "
          "seeded random; f = hash-based random table function with values in [1,2); all component grids of the current scheme, all "
          "points of the combined grid")
+BOUND += "; round-10 additions: after every step the tensor-grid entry point interpolate_grid at the product of the combined grid's coordinates (at most 2500 points) against __call__"
 RULE = BOUND + ("; a case is one configuration + oracle seed; the clauses are evaluated on the initial scheme and after every refine(); "
                 "non-trivial = at least one refinement step was performed")
 CLAUSES = {
